@@ -662,6 +662,10 @@ func runC16(c *Ctx) error {
 		}
 	}
 
+	// API requests overlapping header ingestion (metrics off: before the metrics phase)
+	if err := c16Concurrent(c); err != nil {
+		return err
+	}
 	// metrics.enabled=true — last, after every metrics-off engine has done its work
 	return c16MetricsPhase(c, ss, rng)
 }
